@@ -25,6 +25,9 @@ SCENARIOS = {
     'add-probe|insert-probe': [[('add', 1), ('probe', None), ('add', 2)], [('insert', 3), ('probe', None)]],
     'add-add-add|clear': [[('add', 1), ('add', 2), ('add', 3)], [('clear', None)]],
     'add-add|clear-insert': [[('add', 1), ('add', 2)], [('clear', None), ('insert', 3)]],
+    # a stop request for the current job, then more work: the stopped body is still executing until it returns
+    'add-stop-add': [[('add', 1), ('stop', None), ('add', 2)]],
+    'add|stop-insert-add': [[('add', 1)], [('stop', None), ('insert', 2), ('add', 3)]],
 }
 
 
@@ -128,6 +131,9 @@ def scenario(ctx, clients, max_preempt, raising):
                         r = jc.spawn_job(jobs[ident], ident)
                     elif op == 'clear':
                         jc.clear_queue()
+                        continue
+                    elif op == 'stop':
+                        jc.stop_current()
                         continue
                     else:
                         jc.has_jobs(); jc.get_current(); jc.get_queued(); jc.is_running('b1')
